@@ -415,7 +415,7 @@ fn history(out: &mut Out, rng: &mut Rng, st: &mut Stats, respect: bool, steps: u
 
 fn hist(out: &mut Out, rng: &mut Rng, thorough: bool) {
 	let mut st = Stats::default();
-	let (nh, steps) = if thorough { (160, 60) } else { (36, 30) };
+	let (nh, steps) = if thorough { (420, 70) } else { (36, 30) };
 	for h in 0..nh {
 		let respect = h % 3 != 2;
 		let maxn = *rng.pick(&[2600u64, 4200, 6200, 6200]);
